@@ -91,7 +91,10 @@ def gen(rng, tier):
             else:
                 behaviours.append({"b": "exit_after", "d": rng.choice([0, 0, 0.25])})
         cases.append({"k": "ace", "task": task, "tsdb": tsdb, "inputs": inputs, "behaviours": behaviours,
-                      "pauses": pauses, "nresults": rng.choice([0, 1, 2])})
+                      "pauses": pauses, "nresults": rng.choice([0, 1, 2]),
+                      # in every third history the client is slow to start reading each answer, so that a
+                      # processor that exits right after answering has exited before the first read
+                      "rdelay": 0.1 if i % 3 == 0 else 0})
     for t in ("parse", "generate"):
         for d in BAD_PARSE + BAD_MRS + [" a ", "[ a ]", "x [ a [ b ] ] y [ c ]", "[ a ] tail", "head [ a ]", "[[ a ]]"]:
             cases.append({"k": "valid", "task": t, "datum": d})
@@ -183,6 +186,8 @@ def _run(c):
     orig = ace.ACEProcess._result_lines
 
     def wrapper(self, termini=None):
+        if c.get("rdelay"):
+            time.sleep(c["rdelay"])
         lines = orig(self, termini)
         captured.append(list(lines))
         return lines
